@@ -84,6 +84,8 @@ func NewVerifier(prog *ssa.Program, fset *token.FileSet, cs *ContractSet) *Verif
 		siteSeen: map[string]int{}, srcCache: map[string][]string{}, maxStates: 256, assumptions: map[string]bool{}}
 }
 
+var repoRoot = "/repo"
+
 type abortExec struct{ msg string }
 
 func (v *Verifier) abort(format string, a ...interface{}) {
@@ -109,7 +111,7 @@ func (v *Verifier) srcLine(pos token.Pos) (string, string) {
 	if p.Line-1 < len(lines) && p.Line >= 1 {
 		txt = strings.TrimSpace(lines[p.Line-1])
 	}
-	return fmt.Sprintf("%s:%d", strings.TrimPrefix(p.Filename, "/repo/"), p.Line), txt
+	return fmt.Sprintf("%s:%d", strings.TrimPrefix(p.Filename, repoRoot+"/"), p.Line), txt
 }
 
 func funcRef(fn *ssa.Function) string {
@@ -431,6 +433,7 @@ func (v *Verifier) cutLoop(fn *ssa.Function, an *fnAnalysis, li *loopInfo, s *St
 	invs, decs, _ := v.loopClauses(fn, li)
 	pos := loopPos(li.header)
 	ev := v.newEval(s, fn, fc, evalLoop)
+	ev.loop = li
 	for _, c := range invs {
 		g := ev.boolExpr(c.Expr)
 		v.addOb(s, "inv-entry", pos, g, fmt.Sprintf("loop %d invariant %s", li.ordinal, c.Text), c.Props)
@@ -453,7 +456,9 @@ func (v *Verifier) cutLoop(fn *ssa.Function, an *fnAnalysis, li *loopInfo, s *St
 	if li.calls {
 		s.bumpWM()
 	}
+	v.rangeIndexInvariant(li, s, fc)
 	ev = v.newEval(s, fn, fc, evalLoop)
+	ev.loop = li
 	for _, c := range invs {
 		s.assume(ev.boolExpr(c.Expr))
 	}
@@ -468,6 +473,7 @@ func (v *Verifier) backEdge(fn *ssa.Function, an *fnAnalysis, li *loopInfo, s *S
 	invs, decs, _ := v.loopClauses(fn, li)
 	pos := loopPos(li.header)
 	ev := v.newEval(s, fn, fc, evalLoop)
+	ev.loop = li
 	for _, c := range invs {
 		g := ev.boolExpr(c.Expr)
 		v.addOb(s, "inv-step", pos, g, fmt.Sprintf("loop %d invariant %s", li.ordinal, c.Text), c.Props)
@@ -481,9 +487,53 @@ func (v *Verifier) backEdge(fn *ssa.Function, an *fnAnalysis, li *loopInfo, s *S
 		m := ev.intExpr(c.Expr)
 		v.addOb(s, "dec", pos, And(Le(Int(0), m0), Lt(m, m0)), fmt.Sprintf("loop %d decreases %s", li.ordinal, c.Text), c.Props)
 	}
-	if len(decs) == 0 && v.wantTermination(fn) {
+	if len(decs) == 0 && v.wantTermination(fn) && !v.isStructuralLoop(li) {
 		v.addOb(s, "dec", pos, False, fmt.Sprintf("loop %d has no decreases clause", li.ordinal), nil)
 	}
+}
+
+// rangeIndexInvariant adds the structural invariant -1 <= idx <= len-1 of go/ssa's rangeindex loops.
+func (v *Verifier) rangeIndexInvariant(li *loopInfo, s *State, fc *frameCells) {
+	if li.header.Comment != "rangeindex.loop" {
+		return
+	}
+	// pattern: t8 = *idx; t9 = t8 + 1; *idx = t9; t10 = t9 < len
+	var idxAlloc *ssa.Alloc
+	var lenVal ssa.Value
+	for _, ins := range li.header.Instrs {
+		if b, ok := ins.(*ssa.BinOp); ok && b.Op == token.LSS {
+			lenVal = b.Y
+		}
+		if st, ok := ins.(*ssa.Store); ok {
+			if a, ok := st.Addr.(*ssa.Alloc); ok && a.Comment == "rangeindex" {
+				idxAlloc = a
+			}
+		}
+	}
+	if idxAlloc == nil || lenVal == nil {
+		return
+	}
+	cell := fc.m[idxAlloc]
+	if cell == nil {
+		return
+	}
+	cur, ok := s.cells[cell]
+	if !ok {
+		return
+	}
+	ln := v.regOrNil(s, lenVal)
+	if ln == nil {
+		return
+	}
+	s.assume(And(Le(Int(-1), cur.term()), Le(cur.term(), Sub(ln.term(), Int(1)))))
+}
+
+func (v *Verifier) isStructuralLoop(li *loopInfo) bool {
+	switch li.header.Comment {
+	case "rangeindex.loop", "rangeint.loop", "rangeiter.loop":
+		return true
+	}
+	return false
 }
 
 func (v *Verifier) wantTermination(fn *ssa.Function) bool {
@@ -539,6 +589,11 @@ func (v *Verifier) flow(fn *ssa.Function, an *fnAnalysis, from, to *ssa.BasicBlo
 	if an.backEdge[[2]int{from.Index, to.Index}] {
 		v.backEdge(fn, an, an.loops[to], s, fc)
 		return
+	}
+	if len(to.Instrs) > 0 {
+		if _, isPhi := to.Instrs[0].(*ssa.Phi); isPhi {
+			s.ghost[fmt.Sprintf("$pred!%p!%d", fn, to.Index)] = scalar(types.Typ[types.Int], Int(int64(from.Index)))
+		}
 	}
 	in[to] = append(in[to], s)
 }
@@ -1019,7 +1074,12 @@ func (v *Verifier) execIndexAddr(s *State, t *ssa.IndexAddr) {
 	case *types.Slice:
 		v.addOb(s, "idx", t.Pos(), And(Le(Int(0), idx), Lt(idx, x.sLen())), "", nil)
 		et := ut.Elem()
-		v.set(s, t, &Value{T: t.Type(), L: []*Term{nil}, LV: &LValue{kind: lvElem, obj: x.sArr(), idx: Add(x.sOff(), idx), t: et, rootT: et}})
+		// slice-window seeding: for a sub-slice (off = base+lo) mention the element's index relative to the parent window,
+		// so that quantified facts about the parent slice can be instantiated by E-matching
+		if off := x.sOff(); off.op == "+" && len(off.args) == 2 {
+			s.assume(Eq(Elt(off.args[0], Add(off.args[1], idx)), Elt(off, idx)))
+		}
+		v.set(s, t, &Value{T: t.Type(), L: []*Term{nil}, LV: &LValue{kind: lvElem, obj: x.sArr(), idx: Elt(x.sOff(), idx), t: et, rootT: et}})
 	case *types.Pointer:
 		at := under(ut.Elem()).(*types.Array)
 		v.addOb(s, "idx", t.Pos(), And(Le(Int(0), idx), Lt(idx, Int(at.Len()))), "", nil)
